@@ -256,7 +256,7 @@ def do_switch(item, acc):
                     acc.nt(("switch", P.framing_class(a[0], a[1]), a[2], P.framing_class(b[0], b[1]), b[2],
                             kind, pos, strict, shape))
             acc.count("key_switches_executed", sum(1 for it in script if it[0] == "switch"))
-    if a == b:
+    if a == b and a == CLASS_REPS[0] + ("none",):
         acc.sample({"part": "switch", "from": a, "to": b, "lengths": list(SWITCH_LENGTHS),
                     "positions": "one switch after k=0..3 messages; two switches after k1<=k2; strict-kex off/on; "
                                  "both directions; whole and byte-wise reads"})
